@@ -21,10 +21,6 @@ impl Cursor {
     { unimplemented!() }
 }
 pub fn u32_from(b: u8) -> (r: u32) ensures r == b as u32 { b as u32 }
-/// value of the bytes read high-order first, modulo 2^32 (a field wider than 4 bytes keeps its low-order 4 bytes)
-pub open spec fn be_value(b: Seq<u8>) -> nat decreases b.len() {
-    if b.len() == 0 { 0 } else { (be_value(b.drop_last()) * 256 + b.last() as nat) % 0x1_0000_0000 }
-}
 pub proof fn lemma_shl8_add(v: u32, b: u8)
     ensures (v << 8) as nat + b as nat <= 0xFFFF_FFFF, ((v << 8) + b as u32) as nat == (v as nat * 256 + b as nat) % 0x1_0000_0000
 {
@@ -45,24 +41,46 @@ pub proof fn lemma_shl8_add(v: u32, b: u8)
 }
 
 // ---- decode_xref_stream: abstract stream / dictionary (callee contracts only) ---------------------------------------
-pub struct Dictionary { pub tag: Ghost<int> }
+#[verifier::external_body]
+pub struct Dictionary { _p: () }
+impl Dictionary {
+    /// the entry is an integer
+    pub uninterp spec fn int_at(&self, key: Seq<u8>) -> Option<i64>;
+    /// the entry is an array of integers (parse_integer_array: Object::as_i64 on every element)
+    pub uninterp spec fn ints_at(&self, key: Seq<u8>) -> Option<Seq<i64>>;
+    /// the dictionary without the entry
+    pub uninterp spec fn without(&self, key: Seq<u8>) -> Dictionary;
+}
 pub struct Stream { pub dict: Dictionary, pub content: Vec<u8> }
 impl Stream {
+    pub uninterp spec fn compressed(&self) -> bool;
+    /// unit `stream` proves what decompress yields (decoded_content); here: whether it succeeds, and what it leaves
+    pub uninterp spec fn decodable(&self) -> bool;
+    pub uninterp spec fn decoded_dict(&self) -> Dictionary;
+    pub uninterp spec fn decoded_data(&self) -> Seq<u8>;
     #[verifier::external_body]
-    pub fn is_compressed(&self) -> (r: bool) { unimplemented!() }
-    /// unit `stream` proves what decompress yields; here only that it returns
+    pub fn is_compressed(&self) -> (r: bool) ensures r == self.compressed() { unimplemented!() }
     #[verifier::external_body]
-    pub fn decompress(&mut self) -> (r: core::result::Result<(), ErrTag>) { unimplemented!() }
+    pub fn decompress(&mut self) -> (r: core::result::Result<(), ErrTag>)
+        ensures r is Ok <==> old(self).decodable(), r is Ok ==> final(self).dict == old(self).decoded_dict() && final(self).content@ == old(self).decoded_data()
+    { unimplemented!() }
+    /// dictionary and data the cross-reference section is read from
+    pub open spec fn plain_dict(&self) -> Dictionary { if self.compressed() { self.decoded_dict() } else { self.dict } }
+    pub open spec fn plain_data(&self) -> Seq<u8> { if self.compressed() { self.decoded_data() } else { self.content@ } }
 }
 impl Cursor {
     pub fn new(data: Vec<u8>) -> (r: Cursor) ensures r.data == data, r.pos == 0 { Cursor { data, pos: 0 } }
 }
 #[verifier::external_body]
-pub fn dict_get_i64(d: &Dictionary, key: &[u8]) -> (r: core::result::Result<i64, ErrTag>) { unimplemented!() }
+pub fn dict_get_i64(d: &Dictionary, key: &[u8]) -> (r: core::result::Result<i64, ErrTag>)
+    ensures r is Ok <==> d.int_at(key@) is Some, r is Ok ==> r->Ok_0 == d.int_at(key@)->Some_0
+{ unimplemented!() }
 #[verifier::external_body]
-pub fn dict_get_int_array(d: &Dictionary, key: &[u8]) -> (r: core::result::Result<Vec<i64>, ErrTag>) { unimplemented!() }
+pub fn dict_get_int_array(d: &Dictionary, key: &[u8]) -> (r: core::result::Result<Vec<i64>, ErrTag>)
+    ensures r is Ok <==> d.ints_at(key@) is Some, r is Ok ==> r->Ok_0@ == d.ints_at(key@)->Some_0
+{ unimplemented!() }
 #[verifier::external_body]
-pub fn dict_remove(d: &mut Dictionary, key: &[u8]) { unimplemented!() }
+pub fn dict_remove(d: &mut Dictionary, key: &[u8]) ensures *final(d) == old(d).without(key@) { unimplemented!() }
 pub fn vec2(a: i64, b: i64) -> (r: Vec<i64>) ensures r@ == seq![a, b] { let mut v = Vec::new(); v.push(a); v.push(b); v }
 pub fn all3_zero(w: &Vec<i64>) -> (r: bool) requires w@.len() >= 3 ensures r == (w@[0] == 0 && w@[1] == 0 && w@[2] == 0) { w[0] == 0 && w[1] == 0 && w[2] == 0 }
 pub fn any3_gt(w: &Vec<i64>, n: u64) -> (r: bool)
@@ -83,3 +101,28 @@ pub fn zeros_bounded(n: usize, Ghost(limit): Ghost<nat>) -> (r: Vec<u8>)
 { vec![0u8; n] }
 pub fn u32_try_from_i64(x: i64) -> (r: Option<u32>) ensures r is Some <==> (0 <= x <= u32::MAX), r is Some ==> r->Some_0 as int == x
 { if 0 <= x && x <= u32::MAX as i64 { Some(x as u32) } else { None } }
+
+// ---- (fld, row_entry, xs_rows, xs_sections and their unfolding lemmas: xsspec.rs, shared with unit writer) ----
+/// the entries of the cross-reference stream with dictionary `d` and (decoded) data `data`; None = rejected
+pub open spec fn xs_decode(d: Dictionary, data: Seq<u8>) -> Option<Map<u32, XrefEntry>> {
+    match d.int_at(k_size()) {
+        None => None,
+        Some(size) => {
+            let idx = match d.ints_at(k_index()) { Some(v) => v, None => seq![0i64, size] };   // default: one subsection 0 .. Size
+            match d.ints_at(k_w()) {
+                None => None,
+                Some(w) => if w.len() < 3 || w[0] < 0 || w[1] < 0 || w[2] < 0 { None }
+                    else if (w[0] == 0 && w[1] == 0 && w[2] == 0) || w[0] > data.len() || w[1] > data.len() || w[2] > data.len() { None }
+                    else { match xs_sections(data, w[0] as nat, w[1] as nat, w[2] as nat, idx, 0, Map::empty(), 0) { Some((m, _)) => Some(m), None => None } },
+            }
+        }
+    }
+}
+
+pub proof fn lemma_trunc_u16(x: u32, r: u16)
+    requires r == #[verifier::truncate] (x as u16)
+    ensures r as nat == (x as nat) % 0x1_0000
+{
+    assert(r == (x & 0xffff) as u16) by (bit_vector) requires r == #[verifier::truncate] (x as u16);
+    assert((x & 0xffff) == x % 0x1_0000) by (bit_vector);
+}
